@@ -517,7 +517,8 @@ func mwRunSessions(h mocrelay.Handler, nsess int, ops []mwOp, now int64) []mwObs
 // ---------------------------------------------------------------- generators
 
 var mwSubIDs = []string{"a", "ab", "abc", "abcd"}
-var mwContents = []string{"", "1", "12", "123", "1234", "ééééé"}
+// lengths are counted in bytes: "é" is 2 bytes and 1 character, "éé" 4 and 2, "日" 3 and 1, "😀" 4 and 1
+var mwContents = []string{"", "1", "12", "123", "1234", "ééééé", "é", "éé", "日", "😀"}
 
 // created_at is any int64: besides the offsets around the limits, the ends
 // of the int64 range and the edges of every representation the value passes
@@ -750,10 +751,11 @@ func mwRandomSpec(r *common.Rand, t string) mwSpec {
 	s := mwSpec{T: t}
 	switch t {
 	case "created_lower", "created_upper":
-		s.N = common.Pick(r, []int64{30, 120, 600})
+		// 0 is a limit like any other: nothing older (newer) than now
+		s.N = common.Pick(r, []int64{0, 30, 120, 600})
 	case "created_window":
-		s.From = common.Pick(r, []int64{-600, -120, -30})
-		s.To = common.Pick(r, []int64{30, 120, 600})
+		s.From = common.Pick(r, []int64{-600, -120, -30, 0})
+		s.To = common.Pick(r, []int64{0, 30, 120, 600})
 	case "allow", "deny":
 		n := 1 + r.Intn(2)
 		for i := 0; i < n; i++ {
